@@ -410,7 +410,29 @@ def s9(ctx, rep):
         raise AnchorError("no fit method of a GaussianProcessModel subclass found")
 
 
+def s7b_jitter_series(ctx, rep, clause="S7"):
+    """the jitter series of AddJitterOp is  0, j0, j0 * g, j0 * g^2, ... : after the first failure the initial jitter is tried as it
+    is; the growth factor is applied only from the second failure on (`jitter == 0` selects between the two)"""
+    from .common import dom_guard
+    f = ctx.P.func("syne_tune.optimizer.schedulers.searchers.bayesopt.gpautograd.custom_op.AddJitterOp")
+    cfg = cfg_of(f)
+    asg = [n for n in cfg.nodes if n.kind == "stmt" and isinstance(n.ast, ast.Assign) and U(n.ast.targets[0]) == "jitter"
+           and not (isinstance(n.ast.value, ast.Constant))]
+    if not asg:
+        raise AnchorError("AddJitterOp: updates of `jitter` not found")
+    from ..engine import canon_text
+    grow = [n for n in asg if "jitter_growth" in canon_text(f, n.ast.value)]
+    init = [n for n in asg if "initial_jitter_factor" in canon_text(f, n.ast.value) and n not in grow]
+    zero = lambda a, truth: a[0] == "eq" and a[3] is truth and "jitter" in (a[1], a[2]) and ({a[1], a[2]} & {"0.0", "0"})
+    ok = bool(grow) and bool(init) and all(any(zero(a, False) for a in dom_guard(ctx, f, n.id)) for n in grow) and \
+        all(any(zero(a, True) for a in dom_guard(ctx, f, n.id)) for n in init)
+    rep.put(ok, clause, "guarded_by", "AddJitterOp: first retry with the initial jitter, growth factor only from the second failure on", f,
+            (grow or asg)[0].ast, "", "the growth factor is applied to the first retry as well (or the initial jitter is never tried as it is): the matrix "
+            "that is factorised carries ten times the minimal documented jitter - predictive variances and the likelihood are off")
+
+
 def run(ctx, rep, tier="quick"):
+    s7b_jitter_series(ctx, rep)
     s1(ctx, rep)
     s2(ctx, rep)
     s3(ctx, rep)
